@@ -6,6 +6,10 @@ def build(P):
     P.category = "other"
     H.setup(P)
     H.add_handlers(P, ("C01",))
+    # the transition itself: the next state's name and the state's output are what is published, with the retry
+    # bookkeeping of the state just left removed (a leaked counter changes how often the NEXT state is retried)
+    from contracts import engine as E
+    P.verify(E.SE + "StateEngine.change_state", tags=("C01",))
     P.native("corpus-vs-reference", "natives.c01:corpus", kind="bounded", clause="C01:", timeout=900,
              bound="about 70 generated machines (every state type; 11 InputPath/Parameters/ResultPath/OutputPath variants on Pass and "
                    "Task, ResultSelector, Choice with Default / without, Retry, Catch, Parallel, Map with ItemSelector and MaxConcurrency, "
